@@ -4,6 +4,7 @@
 //   mode 5 (C05): inverse pairs
 // Generated TUs include all quantity headers, then this file, then a list of item functions.
 #pragma once
+#include <cerrno>
 #include <tuple>
 
 #include "probe.hpp"
@@ -79,6 +80,21 @@ X ranged(const X& x, int shift) {
 template <class A, class B>
 std::pair<A, B> operands(int v) {
   if (v < 100) return {operand<A>(0, v), operand<B>(1, v)};
+  if (v >= 200) {
+    // the second operand a few units in the last place away from the first (same shapes only): a difference of nearly equal
+    // stored values is still the exact difference
+    const A a = operand<A>(0, 0);
+    if constexpr (vf::count_of<A>() == vf::count_of<B>() && !vf::is_direction<A> && !vf::is_direction<B>) {
+      numof<A> ca[9];
+      numof<B> cb[9];
+      vf::comps(a, ca);
+      static const int away[4] = {1, 2, -3, 0};
+      for (int i = 0; i < vf::count_of<A>(); i++) cb[i] = vf::step((numof<B>)ca[i], away[(v - 200 + i) % 4]);
+      return {a, rebuild<B>(cb)};
+    } else {
+      return {a, operand<B>(1, 0)};
+    }
+  }
   using T = numof<A>;
   const int sub = std::numeric_limits<T>::min_exponent - 10, far = std::numeric_limits<T>::max_exponent / 2 + 3;
   const A a = operand<A>(0, 0);
@@ -98,6 +114,14 @@ X positive_operand(int e, long double m) {
   using T = numof<X>;
   T c[9];
   for (int i = 0; i < 9; i++) c[i] = (T)std::ldexp(m * (1.0L + i / 16.0L) * (1.0L + 1.0L / 3072.0L), e);
+  return rebuild<X>(c);
+}
+// every component equal to the given value (directions normalise it away)
+template <class X>
+X positive_operand_flat(long double value) {
+  using T = numof<X>;
+  T c[9];
+  for (int i = 0; i < 9; i++) c[i] = (T)(value * (i == 0 ? 1.0L : 1.0L + i * 0.0625L));
   return rebuild<X>(c);
 }
 // rescaling s in 0..6: base unit s multiplied by 4; s == 7: all seven at once with different powers
@@ -205,6 +229,35 @@ void homogeneity_impl(const char* sig, char kind, F f, std::index_sequence<I...>
         vf::stat("skipped_nonfinite");
         continue;
       }
+      if (v == 0) {
+        // the value category of the operands does not matter: temporaries give what the named objects give (an overload taking
+        // rvalues - a "move" constructor from other quantities - must compute the same)
+        const R rt = f(X(std::get<I>(args))...);
+        T a0[9], a1[9];
+        vf::comps(r0, a0);
+        vf::comps(rt, a1);
+        vf::stat("temporary_operand_evaluations");
+        // ... and neither does what an unrelated earlier call left in errno
+        for (int stale : {EDOM, ERANGE}) {
+          errno = stale;
+          const R re = f(std::get<I>(args)...);
+          errno = 0;
+          T a2[9];
+          vf::comps(re, a2);
+          for (int i = 0; i < vf::count_of<R>(); i++)
+            if (!vf::same_bits(a0[i], a2[i])) {
+              vf::viol(key + "|errno", std::string("{\"relation\":") + vf::jstr(sig) + ",\"operands\":" + show_all(std::get<I>(args)...) + ",\"result\":" + show(r0) +
+                                         ",\"result_with_errno_left_at_" + std::to_string(stale) + "\":" + show(re) + "}");
+              return;
+            }
+        }
+        for (int i = 0; i < vf::count_of<R>(); i++)
+          if (!vf::same_bits(a0[i], a1[i])) {
+            vf::viol(key + "|temporaries", std::string("{\"relation\":") + vf::jstr(sig) + ",\"operands\":" + show_all(std::get<I>(args)...) + ",\"result_of_named_operands\":" + show(r0) +
+                                               ",\"result_of_temporary_operands\":" + show(rt) + "}");
+            return;
+          }
+      }
       for (int s = 0; s < 10; s++) {
         if (s == 7 && !thorough && v) continue;
         const R rs = f(scaled(std::get<I>(args), s)...);
@@ -260,19 +313,36 @@ REL_RAWOP(RawSub, -)
 REL_RAWOP(RawMul, *)
 REL_RAWOP(RawDiv, /)
 
-template <class A, class B, class F, class G>
-void exact_op(const char* sig, char op, F f, G rawf, bool raw_applies) {
+template <class A, class B, class F, class G, class H>
+void exact_op(const char* sig, char op, F f, G rawf, bool raw_applies, H tmpf) {
   using R = std::decay_t<std::invoke_result_t<F, const A&, const B&>>;
   if constexpr (!checkable<R>) {
     return;
   } else {
     using T = numof<R>;
     const int nv = thorough ? 6 : 5;
-    for (int v = 0; v < 106; v++) {
+    for (int v = 0; v < 204; v++) {
       if (v == nv) v = 100;
+      if (v == 106) v = 200;
       const auto [a, b] = operands<A, B>(v);
       const R r = f(a, b);
       vf::stat("operator_evaluations");
+      if (v == 0 || v == 2) {
+        // every value category of the operands: named objects, temporaries, and one of each
+        T x0[9];
+        vf::comps(r, x0);
+        for (int which = 1; which <= 3; which++) {
+          const R rt = tmpf(a, b, which);
+          T x1[9];
+          vf::comps(rt, x1);
+          for (int i = 0; i < vf::count_of<R>(); i++)
+            if (!vf::same_bits(x0[i], x1[i])) {
+              vf::viol(std::string("exact|") + sig + "|" + vf::TName<T>::value + "|temporaries", std::string("{\"relation\":") + vf::jstr(sig) + ",\"operands\":" + show_all(a, b) + ",\"result_of_named_operands\":" + show(r) +
+                                                                                                     ",\"result_with_temporaries\":" + show(rt) + ",\"which\":" + std::to_string(which) + "}");
+              return;
+            }
+        }
+      }
       if (raw_applies) {
         const auto rr = rawf(a, b);
         T x[9], y[9];
@@ -424,6 +494,40 @@ void inverse2(const char* sig, F f, G g) {
         grid.push_back({m, x});
       }
   bool departed = false;
+  // special points: operands whose product or quotient lands next to a whole number (3 + 4e-10, 6 + 7e-10, ...), where a
+  // "snap to the nearest integer" clean-up would sit; encoded as negative grid indices handled below
+  const std::pair<long double, long double> special[] = {{1.0L, 3.0L + 4e-10L}, {3.0L + 4e-10L, 1.0L}, {0.5L, 6.0L + 7e-10L}, {2.0L, 1.5L + 2e-10L}, {7.0L - 3e-10L, 1.0L},
+                                                          {12.0L + 9e-10L, 4.0L}, {1.0L, 1.0L + 5e-10L}, {250.0L + 6e-10L, 0.25L}};
+  for (const auto& sp : special) {
+    const A a = positive_operand_flat<A>(sp.first);
+    const B b = positive_operand_flat<B>(sp.second);
+    const C c = f(a, b);
+    if (!finite(c)) continue;
+    const A back = g(c, b);
+    if (!finite(back)) continue;
+    T x[9], y[9];
+    vf::comps(a, x);
+    vf::comps(back, y);
+    f128 amax = 0;
+    for (int i = 0; i < na; i++) amax = fmaxq(amax, fabsq((f128)x[i]));
+    f128 tol[9];
+    for (int i = 0; i < na; i++) tol[i] = 8 * vf::ulp_at<T>(amax);
+    for (int d : {-4, -2, -1, 1, 2, 4})
+      for (int k = 0; k < vf::count_of<C>(); k++) {
+        const A alt = g(nudged(c, k, d), b);
+        if (!finite(alt)) continue;
+        T z[9];
+        vf::comps(alt, z);
+        for (int i = 0; i < na; i++) tol[i] = fmaxq(tol[i], fabsq((f128)z[i] - (f128)y[i]));
+      }
+    vf::stat("round_trips");
+    for (int i = 0; i < na; i++)
+      if (!((double)(fabsq((f128)y[i] - (f128)x[i]) / tol[i]) <= 1.0)) {
+        vf::viol(std::string("inverse|") + sig + "|" + vf::TName<T>::value, std::string("{\"pair\":") + vf::jstr(sig) + ",\"a\":" + show(a) + ",\"b\":" + show(b) + ",\"c=f(a,b)\":" + show(c) +
+                                                                                 ",\"g(c,b)\":" + show(back) + ",\"near_whole_number_point\":true}");
+        return;
+      }
+  }
   const long double ms[] = {1.0L, 1.375L, 1.9L, 1.0078125L / 1.09375L};  // the last one puts the second operand next to 1 (a ratio near one: cancellation in x - 1)
   double worst = 0;
   for (auto [ea, eb] : grid)
